@@ -33,6 +33,7 @@ try:
         print(p, "rc=%d" % r.returncode, [l[:140] for l in lines], res[p].get("replay_kind"), (res[p].get("oracle") or "")[:100], res[p].get("theorem"))
 finally:
     subprocess.run(["git", "-C", "/repo", "checkout", "--", "."], check=True)
+    subprocess.run(["git", "-C", "/repo", "clean", "-fdq"], check=True)     # files a patch added (ignored build output stays)
     # restore generated facts to the clean tree's values
     subprocess.run([os.path.join(VERIF, "setup.sh")], capture_output=True, cwd=VERIF)
     # evidence files written while the change was applied describe a modified tree: put the committed ones back
